@@ -80,11 +80,23 @@ func (w *World) ruleLiteralTypeNumberedPX(r *Report, rule string) {
 		return
 	}
 	fieldKey := fmt.Sprintf("%s.%d", types.TypeString(named, nil), tl)
-	tag := w.tagSymbolOf(rt)
-	if tag == nil {
-		r.undecided(rule, "(*Decoder).readType", "-", "no tag symbol")
-		return
+	// the tag symbol: result #0 of the first tag read executed on the path, in whichever
+	// frame it sits (`readTypeToken() (name, index, named, err)` reads the tag and the
+	// literal / the index, readType appends or resolves); it is bound per path when the
+	// Extract is executed, so a path that forks later shares it
+	const tagCell = "c03r4:first-tag"
+	isTagRead := func(c *ssa.Call) bool {
+		sc := c.Call.StaticCallee()
+		if sc == nil {
+			return false
+		}
+		switch qualifiedFnName(sc) {
+		case "getTag", "readTag", "(*Decoder).readTag":
+			return true
+		}
+		return false
 	}
+	sawTag := false
 	idx := errIndex(rt.Signature)
 	strTags := specTags("string", "")
 	type site struct {
@@ -102,11 +114,26 @@ func (w *World) ruleLiteralTypeNumberedPX(r *Report, rule string) {
 			_, isReader := stop[callee]
 			return !isReader
 		},
+		onInstr: func(fr *pxFrame, in ssa.Instruction, s *pxState) bool {
+			if ex, ok := in.(*ssa.Extract); ok && ex.Index == 0 {
+				if c, isC := ex.Tuple.(*ssa.Call); isC && isTagRead(c) {
+					if _, has := s.vals[tagCell]; !has {
+						s.vals[tagCell] = px.term(ex, fr, s)
+						sawTag = true
+					}
+				}
+			}
+			return true
+		},
 		onReturn: func(fr *pxFrame, ret *ssa.Return, results []*Term, s *pxState) {
 			if idx < 0 || pxErrOutcome(ret.Results[idx], results[idx], s) == "err" {
 				return
 			}
-			S, _ := px.eval(tag, fr, s)
+			tag, has := s.vals[tagCell]
+			if !has {
+				return
+			}
+			S, _ := px.evalTerm(tag, s)
 			if S == nil || S.Empty() || !S.SubsetOf(strTags) {
 				return
 			}
@@ -136,6 +163,10 @@ func (w *World) ruleLiteralTypeNumberedPX(r *Report, rule string) {
 	px.Run(rt, Env{})
 	if px.Truncated {
 		r.undecided(rule, "(*Decoder).readType · literal returns number the type", w.pos(rt.Pos()), "path exploration truncated")
+		return
+	}
+	if !sawTag {
+		r.undecided(rule, "(*Decoder).readType", "-", "no tag symbol: no path of the type reader reads a tag")
 		return
 	}
 	var list []*site
